@@ -1,18 +1,23 @@
 //! C18 — a store never has two authorities; a live authority's lock is never taken.
 //!
-//! Engine S: 2 (thorough: 3) contenders run the recovery protocol over the REAL lock primitives
+//! Engine S: servers and clients run the recovery protocols over the REAL lock primitives
 //! (try_acquire, read_authority_meta, read_authority_lock_record, pid_liveness,
-//! try_cleanup_stale_authority_files, write_meta) from every leftover state, explored over all
-//! interleavings at the file-system step hooks up to a preemption bound. Seams give every actor its
-//! own pid and make liveness / reachability a function of the harness' actor table.
+//! try_cleanup_stale_authority_files, try_cleanup_corrupt_lock_file, write_meta, guard drop) from
+//! every leftover state, explored over all interleavings at the file-system step hooks up to a
+//! preemption bound. Seams give every actor its own pid and make liveness / reachability a function
+//! of the harness' actor table. Scenarios: contenders on leftovers of a dead owner (incl. a
+//! half-written lock), a live holder that stays, a holder that releases while others start, a
+//! server that dies at every one of its hooks, and clients that attach / clean up / spawn servers.
 
+use std::mem::ManuallyDrop;
 use std::path::PathBuf;
+use std::sync::atomic::{AtomicBool, AtomicUsize, Ordering};
 use std::sync::{Arc, Mutex};
 
 use rayon::prelude::*;
 use ripd::{
-    pid_liveness, read_authority_lock_record, read_authority_meta, try_cleanup_stale_authority_files, AuthorityLockGuard, AuthorityLockRecord,
-    AuthorityMeta, PidLiveness,
+    pid_liveness, read_authority_lock_record, read_authority_meta, try_cleanup_corrupt_lock_file, try_cleanup_stale_authority_files,
+    AuthorityLockGuard, AuthorityLockRecord, AuthorityMeta, PidLiveness,
 };
 use serde_json::{json, Value};
 
@@ -20,6 +25,14 @@ use crate::common::{scratch_dir, Opts, Report, Tier};
 use crate::sched::{explore, ActorBody, ActorCtx, ActorEnv, Exec};
 
 const DEAD_PID: u32 = 999;
+const BASE_PID: u32 = 1000;
+const ROOT: &str = "/workspace";
+/// Logical time = number of 20 ms retry sleeps an actor has taken. The real constants are 1 s grace
+/// (50 sleeps), 2 s server deadline, 8 s client deadline, 500 ms spawn cooldown; the model keeps
+/// their order (grace < server deadline < client deadline, one spawn per client within the horizon).
+const GRACE: u32 = 1;
+const SERVER_DEADLINE: u32 = 3;
+const CLIENT_DEADLINE: u32 = 4;
 
 #[derive(Clone, Copy, Debug, PartialEq, Eq, Hash)]
 enum Leftover {
@@ -27,10 +40,75 @@ enum Leftover {
     DeadLock,
     DeadLockAndMeta,
     DeadMetaOnly,
+    /// the previous owner died between creating lock.json and writing it (empty file)
+    HalfLock,
+    /// ... or in the middle of the record (torn JSON)
+    TornLock,
+    /// torn lock of a dead owner next to the meta of an even older dead owner
+    TornLockAndDeadMeta,
+}
+
+const LEFTOVERS: [Leftover; 7] =
+    [Leftover::Empty, Leftover::DeadLock, Leftover::DeadLockAndMeta, Leftover::DeadMetaOnly, Leftover::HalfLock, Leftover::TornLock, Leftover::TornLockAndDeadMeta];
+
+#[derive(Clone, Copy, Debug, PartialEq, Eq, Hash)]
+enum Scenario {
+    /// n servers start at once on a leftover of a dead owner
+    Contend { leftover: Leftover, servers: usize },
+    /// server 0 holds the role for the whole execution (reachable or hung); n more servers start
+    LiveHolder { reachable: bool, servers: usize },
+    /// server 0 holds the role and shuts down (guard drop) while n more servers start
+    Releasing { servers: usize },
+    /// server 0 starts on an empty store and dies immediately before the effect after its k-th hook
+    /// (anywhere in acquire / meta write); n more servers start
+    Crashing { at_hook: usize, servers: usize },
+    /// n clients (each may spawn its own server) on a leftover, plus `servers` independent servers
+    Clients { leftover: Leftover, clients: usize, servers: usize },
+}
+
+#[derive(Clone, Debug, PartialEq)]
+enum Ev {
+    Acquired,
+    Releasing,
+    Attached(u32),
+}
+
+struct Shared {
+    data: PathBuf,
+    n: usize,
+    /// role events in the order they happened: (actor, event, step index)
+    events: Mutex<Vec<(usize, Ev, usize)>>,
+    dead: Vec<Arc<AtomicBool>>,
+    /// actor serves its endpoint (set after the meta write, cleared when it starts to release)
+    serving: Vec<AtomicBool>,
+    /// false = the holder's endpoint never answers (hung server)
+    answers: Vec<AtomicBool>,
+    spawned: Vec<AtomicBool>,
+    clients_left: AtomicUsize,
+    guards: Mutex<Vec<AuthorityLockGuard>>,
+    gave_up: Mutex<Vec<(usize, String)>>,
+}
+
+impl Shared {
+    fn alive(&self, pid: u32) -> bool {
+        if pid < BASE_PID {
+            return false;
+        }
+        let i = (pid - BASE_PID) as usize;
+        i < self.n && !self.dead[i].load(Ordering::SeqCst)
+    }
+    fn ping(&self, pid: u32) -> bool {
+        if !self.alive(pid) {
+            return false;
+        }
+        let i = (pid - BASE_PID) as usize;
+        self.serving[i].load(Ordering::SeqCst) && self.answers[i].load(Ordering::SeqCst)
+    }
 }
 
 struct Env {
     pid: u32,
+    shared: Arc<Shared>,
 }
 
 impl ActorEnv for Env {
@@ -38,153 +116,514 @@ impl ActorEnv for Env {
         Some(self.pid)
     }
     fn pid_alive(&self, pid: u32) -> Option<bool> {
-        Some(pid >= 1000) // actors are alive for the whole execution; the leftover owner is gone
+        Some(self.shared.alive(pid))
     }
 }
 
 struct World {
     _dir: tempfile::TempDir,
-    data: PathBuf,
-    acquired: Arc<Mutex<Vec<u32>>>,
-    guards: Arc<Mutex<Vec<AuthorityLockGuard>>>,
-    gave_up: Arc<Mutex<Vec<(u32, String)>>>,
+    shared: Arc<Shared>,
 }
 
-const HORIZON: usize = 5;
+/// Time is not gated on anything: the lock record is published atomically, so an unreadable lock
+/// is never a live acquirer's, and the grace period may elapse at any moment of any schedule.
+fn grace_may_elapse(_ctx: Option<&ActorCtx>) -> bool {
+    true
+}
 
-/// The server's recovery loop (`acquire_authority_lock_with_recovery`), restated over the public
-/// primitives: the loop itself is private, async and bound to reqwest; its control flow is small.
-fn recovery_loop(ctx: &ActorCtx, data: &PathBuf, root: &str, pid: u32) -> Result<AuthorityLockGuard, String> {
-    for _ in 0..HORIZON {
-        match AuthorityLockGuard::try_acquire(data, root) {
+fn sleep(ctx: Option<&ActorCtx>, now: &mut u32) {
+    if let Some(ctx) = ctx {
+        ctx.yield_now("auth.retry_sleep");
+    }
+    *now += 1;
+}
+
+/// The server's recovery loop (`acquire_authority_lock_with_recovery`, private, async, bound to
+/// reqwest and wall-clock time), restated branch by branch over the public primitives.
+fn server_loop(ctx: Option<&ActorCtx>, w: &Shared) -> Result<AuthorityLockGuard, String> {
+    let mut invalid_since: Option<u32> = None;
+    let mut now = 0u32;
+    loop {
+        match AuthorityLockGuard::try_acquire(&w.data, ROOT) {
             Ok(lock) => return Ok(lock),
             Err(err) => {
-                let meta = read_authority_meta(data).unwrap_or(None);
-                // reachable iff the endpoint's owner is a live actor (its endpoint encodes its pid)
-                let reachable = meta.as_ref().map(|m| m.pid >= 1000).unwrap_or(false);
+                let meta = read_authority_meta(&w.data).unwrap_or(None);
+                let reachable = meta.as_ref().map(|m| w.ping(m.pid)).unwrap_or(false);
                 if reachable {
                     return Err(format!("store already has an authority (pid {})", meta.unwrap().pid));
                 }
-                match read_authority_lock_record(data) {
+                match read_authority_lock_record(&w.data) {
                     Ok(Some(lock)) => {
-                        if lock.workspace_root != root {
+                        invalid_since = None;
+                        if lock.workspace_root != ROOT {
                             return Err("workspace mismatch".into());
                         }
                         if matches!(pid_liveness(lock.pid), PidLiveness::Dead) && !reachable {
-                            let cleaned = try_cleanup_stale_authority_files(data, lock.pid, lock.started_at_ms)?;
+                            let cleaned = try_cleanup_stale_authority_files(&w.data, lock.pid, lock.started_at_ms)?;
                             if cleaned {
                                 continue;
                             }
                         }
                         return Err(err);
                     }
-                    Ok(None) => {}
-                    Err(_) => {} // half-written lock: the grace-gated branch never elapses within an execution
+                    Ok(None) => {
+                        if now >= SERVER_DEADLINE {
+                            return Err(err);
+                        }
+                    }
+                    Err(lock_err) => {
+                        let since = *invalid_since.get_or_insert(now);
+                        if lock_err.contains("lock json invalid") && now - since >= GRACE && grace_may_elapse(ctx) {
+                            let cleaned = try_cleanup_corrupt_lock_file(&w.data)?;
+                            if cleaned {
+                                invalid_since = None;
+                                continue;
+                            }
+                        }
+                        if now >= SERVER_DEADLINE {
+                            return Err(format!("{err} ({lock_err})"));
+                        }
+                    }
                 }
-                ctx.yield_now("auth.retry_sleep");
+                sleep(ctx, &mut now);
             }
         }
     }
-    let _ = pid;
-    Err("horizon".into())
 }
 
-fn make_world(leftover: Leftover, contenders: usize) -> (World, Vec<ActorBody>) {
-    let dir = scratch_dir("c18");
-    let data = dir.path().join("data");
-    let auth = ripd::authority_dir(&data);
-    std::fs::create_dir_all(&auth).unwrap();
-    let root = "/workspace".to_string();
-    let lock = AuthorityLockRecord { pid: DEAD_PID, started_at_ms: 1, workspace_root: root.clone() };
-    let meta = AuthorityMeta { endpoint: "http://dead".into(), pid: DEAD_PID, started_at_ms: 1, workspace_root: root.clone() };
+/// The client's `ensure_local_authority_with_paths` (rip-cli is a bin crate), restated branch by
+/// branch. `spawn` starts this client's server process (at most one within the horizon: the real
+/// spawn cooldown is 500 ms).
+fn client_loop(ctx: &ActorCtx, w: &Shared, spawn: &dyn Fn()) -> Result<u32, String> {
+    let mut invalid_since: Option<u32> = None;
+    let mut now = 0u32;
+    let mut spawned = false;
+    loop {
+        let meta = read_authority_meta(&w.data)?;
+        if let Some(meta) = meta {
+            invalid_since = None;
+            if meta.workspace_root != ROOT {
+                return Err("workspace mismatch".into());
+            }
+            if w.ping(meta.pid) {
+                return Ok(meta.pid);
+            }
+            if matches!(pid_liveness(meta.pid), PidLiveness::Dead) {
+                let cleaned = try_cleanup_stale_authority_files(&w.data, meta.pid, meta.started_at_ms)?;
+                if cleaned {
+                    continue;
+                }
+            }
+        } else if ripd::authority_lock_path(&w.data).exists() {
+            match read_authority_lock_record(&w.data) {
+                Ok(Some(lock)) => {
+                    if lock.workspace_root != ROOT {
+                        return Err("workspace mismatch".into());
+                    }
+                    invalid_since = None;
+                    if matches!(pid_liveness(lock.pid), PidLiveness::Dead) {
+                        let cleaned = try_cleanup_stale_authority_files(&w.data, lock.pid, lock.started_at_ms)?;
+                        if cleaned {
+                            continue;
+                        }
+                    }
+                }
+                Ok(None) => {}
+                Err(err) => {
+                    let since = *invalid_since.get_or_insert(now);
+                    if err.contains("lock json invalid") && now - since >= GRACE && grace_may_elapse(Some(ctx)) {
+                        let cleaned = try_cleanup_corrupt_lock_file(&w.data)?;
+                        if cleaned {
+                            invalid_since = None;
+                            continue;
+                        }
+                    }
+                }
+            }
+        } else {
+            invalid_since = None;
+            if !spawned {
+                spawn();
+                spawned = true;
+                continue;
+            }
+        }
+        if now >= CLIENT_DEADLINE {
+            return Err("timed out waiting for local authority".into());
+        }
+        sleep(Some(ctx), &mut now);
+    }
+}
+
+fn write_leftover(data: &PathBuf, leftover: Leftover) {
+    let lock = AuthorityLockRecord { pid: DEAD_PID, started_at_ms: 1, workspace_root: ROOT.into() };
+    let meta = AuthorityMeta { endpoint: "http://dead".into(), pid: DEAD_PID, started_at_ms: 1, workspace_root: ROOT.into() };
+    let lock_line = format!("{}\n", serde_json::to_string(&lock).unwrap());
+    let lock_path = ripd::authority_lock_path(data);
+    let meta_path = ripd::authority_meta_path(data);
     match leftover {
         Leftover::Empty => {}
-        Leftover::DeadLock => std::fs::write(ripd::authority_lock_path(&data), format!("{}\n", serde_json::to_string(&lock).unwrap())).unwrap(),
+        Leftover::DeadLock => std::fs::write(lock_path, lock_line).unwrap(),
         Leftover::DeadLockAndMeta => {
-            std::fs::write(ripd::authority_lock_path(&data), format!("{}\n", serde_json::to_string(&lock).unwrap())).unwrap();
-            std::fs::write(ripd::authority_meta_path(&data), serde_json::to_string(&meta).unwrap()).unwrap();
+            std::fs::write(lock_path, lock_line).unwrap();
+            std::fs::write(meta_path, serde_json::to_string(&meta).unwrap()).unwrap();
         }
-        Leftover::DeadMetaOnly => std::fs::write(ripd::authority_meta_path(&data), serde_json::to_string(&meta).unwrap()).unwrap(),
+        Leftover::DeadMetaOnly => std::fs::write(meta_path, serde_json::to_string(&meta).unwrap()).unwrap(),
+        Leftover::HalfLock => std::fs::write(lock_path, "").unwrap(),
+        Leftover::TornLock => std::fs::write(lock_path, &lock_line[..lock_line.len() / 2]).unwrap(),
+        Leftover::TornLockAndDeadMeta => {
+            std::fs::write(lock_path, &lock_line[..lock_line.len() / 2]).unwrap();
+            std::fs::write(meta_path, serde_json::to_string(&meta).unwrap()).unwrap();
+        }
     }
-    let acquired = Arc::new(Mutex::new(Vec::new()));
-    let guards = Arc::new(Mutex::new(Vec::new()));
-    let gave_up = Arc::new(Mutex::new(Vec::new()));
+}
+
+/// Server body: recovery loop, then (on success) record the role, advertise the endpoint, serve.
+/// `release` = shut down right after serving (guard drop with its two file removals).
+fn server_body(ctx: &ActorCtx, w: &Arc<Shared>, id: usize, release: bool) {
+    match server_loop(Some(ctx), w) {
+        Ok(guard) => {
+            // a crash inside write_meta must not run the guard's Drop (a dead process removes nothing)
+            let guard = ManuallyDrop::new(guard);
+            w.events.lock().unwrap().push((id, Ev::Acquired, ctx.step_index()));
+            let _ = guard.write_meta(format!("http://pid-{}", BASE_PID + id as u32));
+            w.serving[id].store(true, Ordering::SeqCst);
+            let guard = ManuallyDrop::into_inner(guard);
+            if release {
+                ctx.yield_now("auth.serve");
+                w.serving[id].store(false, Ordering::SeqCst);
+                w.events.lock().unwrap().push((id, Ev::Releasing, ctx.step_index()));
+                drop(guard);
+            } else {
+                w.guards.lock().unwrap().push(guard);
+            }
+        }
+        Err(e) => w.gave_up.lock().unwrap().push((id, e)),
+    }
+}
+
+fn make_world(sc: Scenario) -> (World, Vec<ActorBody>) {
+    let dir = scratch_dir("c18");
+    let data = dir.path().join("data");
+    std::fs::create_dir_all(ripd::authority_dir(&data)).unwrap();
+    // actor table: (kind, ...) per scenario
+    #[derive(Clone, Copy)]
+    enum Kind {
+        Server { release: bool, crash_at: Option<usize>, wait_spawn: bool },
+        /// already holds the role when the execution starts
+        Holder { release: bool },
+        Client { server: usize },
+    }
+    let mut kinds: Vec<Kind> = Vec::new();
+    let mut leftover = Leftover::Empty;
+    let mut holder_answers = true;
+    match sc {
+        Scenario::Contend { leftover: l, servers } => {
+            leftover = l;
+            for _ in 0..servers {
+                kinds.push(Kind::Server { release: false, crash_at: None, wait_spawn: false });
+            }
+        }
+        Scenario::LiveHolder { reachable, servers } => {
+            holder_answers = reachable;
+            kinds.push(Kind::Holder { release: false });
+            for _ in 0..servers {
+                kinds.push(Kind::Server { release: false, crash_at: None, wait_spawn: false });
+            }
+        }
+        Scenario::Releasing { servers } => {
+            kinds.push(Kind::Holder { release: true });
+            for _ in 0..servers {
+                kinds.push(Kind::Server { release: false, crash_at: None, wait_spawn: false });
+            }
+        }
+        Scenario::Crashing { at_hook, servers } => {
+            kinds.push(Kind::Server { release: false, crash_at: Some(at_hook), wait_spawn: false });
+            for _ in 0..servers {
+                kinds.push(Kind::Server { release: false, crash_at: None, wait_spawn: false });
+            }
+        }
+        Scenario::Clients { leftover: l, clients, servers } => {
+            leftover = l;
+            for c in 0..clients {
+                kinds.push(Kind::Client { server: clients + c });
+            }
+            for _ in 0..clients {
+                kinds.push(Kind::Server { release: false, crash_at: None, wait_spawn: true });
+            }
+            for _ in 0..servers {
+                kinds.push(Kind::Server { release: false, crash_at: None, wait_spawn: false });
+            }
+        }
+    }
+    write_leftover(&data, leftover);
+    let n = kinds.len();
+    let n_clients = kinds.iter().filter(|k| matches!(k, Kind::Client { .. })).count();
+    let shared = Arc::new(Shared {
+        data: data.clone(),
+        n,
+        events: Mutex::new(Vec::new()),
+        dead: (0..n).map(|_| Arc::new(AtomicBool::new(false))).collect(),
+        serving: (0..n).map(|_| AtomicBool::new(false)).collect(),
+        answers: (0..n).map(|i| AtomicBool::new(i != 0 || holder_answers)).collect(),
+        spawned: (0..n).map(|_| AtomicBool::new(false)).collect(),
+        clients_left: AtomicUsize::new(n_clients),
+        guards: Mutex::new(Vec::new()),
+        gave_up: Mutex::new(Vec::new()),
+    });
+    // a holder that exists before the execution starts acquires here (sequentially, seams on)
+    let mut pre_guard: Option<AuthorityLockGuard> = None;
+    if matches!(kinds.first(), Some(Kind::Holder { .. })) {
+        crate::sched::set_thread_env(Some(Box::new(Env { pid: BASE_PID, shared: shared.clone() })));
+        let g = AuthorityLockGuard::try_acquire(&data, ROOT).expect("holder acquires an empty store");
+        g.write_meta(format!("http://pid-{BASE_PID}")).expect("holder meta");
+        crate::sched::set_thread_env(None);
+        shared.serving[0].store(true, Ordering::SeqCst);
+        shared.events.lock().unwrap().push((0, Ev::Acquired, 0));
+        pre_guard = Some(g);
+    }
     let mut actors: Vec<ActorBody> = Vec::new();
-    for i in 0..contenders {
-        let pid = 1000 + i as u32;
-        let data = data.clone();
-        let root = root.clone();
-        let acquired = acquired.clone();
-        let guards = guards.clone();
-        let gave_up = gave_up.clone();
+    for (id, kind) in kinds.into_iter().enumerate() {
+        let w = shared.clone();
+        let pid = BASE_PID + id as u32;
+        let pre = if id == 0 { pre_guard.take() } else { None };
         actors.push(Box::new(move |ctx: &ActorCtx| {
-            ctx.set_env(Box::new(Env { pid }));
-            match recovery_loop(ctx, &data, &root, pid) {
-                Ok(guard) => {
-                    acquired.lock().unwrap().push(pid);
-                    let _ = guard.write_meta(format!("http://pid-{pid}"));
-                    // the authority keeps running: the guard is held until the execution ends
-                    guards.lock().unwrap().push(guard);
+            ctx.set_env(Box::new(Env { pid, shared: w.clone() }));
+            match kind {
+                Kind::Holder { release } => {
+                    let guard = pre.expect("holder guard");
+                    if release {
+                        ctx.yield_now("auth.serve");
+                        w.serving[id].store(false, Ordering::SeqCst);
+                        w.events.lock().unwrap().push((id, Ev::Releasing, ctx.step_index()));
+                        drop(guard);
+                    } else {
+                        w.guards.lock().unwrap().push(guard);
+                    }
                 }
-                Err(e) => gave_up.lock().unwrap().push((pid, e)),
+                Kind::Server { release, crash_at, wait_spawn } => {
+                    if wait_spawn {
+                        let w2 = w.clone();
+                        ctx.yield_until("auth.spawned", &move || w2.spawned[id].load(Ordering::SeqCst) || w2.clients_left.load(Ordering::SeqCst) == 0);
+                        if !w.spawned[id].load(Ordering::SeqCst) {
+                            return; // its client never needed it
+                        }
+                    }
+                    if let Some(k) = crash_at {
+                        ctx.crash_at_hook(k, w.dead[id].clone());
+                    }
+                    server_body(ctx, &w, id, release);
+                }
+                Kind::Client { server } => {
+                    let w2 = w.clone();
+                    let res = client_loop(ctx, &w, &move || w2.spawned[server].store(true, Ordering::SeqCst));
+                    match res {
+                        Ok(pid) => w.events.lock().unwrap().push((id, Ev::Attached(pid), ctx.step_index())),
+                        Err(e) => w.gave_up.lock().unwrap().push((id, e)),
+                    }
+                    w.clients_left.fetch_sub(1, Ordering::SeqCst);
+                }
             }
         }));
     }
-    (World { _dir: dir, data, acquired, guards, gave_up }, actors)
+    (World { _dir: dir, shared }, actors)
 }
 
-fn check_exec(report: &Report, leftover: Leftover, contenders: usize, world: &World, exec: &Exec) {
+fn scenario_label(sc: Scenario) -> String {
+    match sc {
+        Scenario::Contend { leftover, servers } => format!("{leftover:?}x{servers}"),
+        Scenario::LiveHolder { reachable, servers } => format!("LiveHolder({})x{servers}", if reachable { "reachable" } else { "hung" }),
+        Scenario::Releasing { servers } => format!("Releasingx{servers}"),
+        Scenario::Crashing { at_hook, servers } => format!("CrashAtHook{at_hook}x{servers}"),
+        Scenario::Clients { leftover, clients, servers } => format!("Clients{clients}+{servers}:{leftover:?}"),
+    }
+}
+
+fn scenario_json(sc: Scenario) -> Value {
+    match sc {
+        Scenario::Contend { leftover, servers } => json!({"kind": "contend", "leftover": format!("{leftover:?}"), "servers": servers}),
+        Scenario::LiveHolder { reachable, servers } => json!({"kind": "live_holder", "reachable": reachable, "servers": servers}),
+        Scenario::Releasing { servers } => json!({"kind": "releasing", "servers": servers}),
+        Scenario::Crashing { at_hook, servers } => json!({"kind": "crashing", "at_hook": at_hook, "servers": servers}),
+        Scenario::Clients { leftover, clients, servers } => json!({"kind": "clients", "leftover": format!("{leftover:?}"), "clients": clients, "servers": servers}),
+    }
+}
+
+fn parse_leftover(s: &str) -> Leftover {
+    LEFTOVERS.iter().copied().find(|l| format!("{l:?}") == s).unwrap_or(Leftover::Empty)
+}
+
+fn scenario_from_json(v: &Value) -> Scenario {
+    let servers = v["servers"].as_u64().unwrap_or(2) as usize;
+    match v["kind"].as_str().unwrap_or("contend") {
+        "live_holder" => Scenario::LiveHolder { reachable: v["reachable"].as_bool().unwrap_or(true), servers },
+        "releasing" => Scenario::Releasing { servers },
+        "crashing" => Scenario::Crashing { at_hook: v["at_hook"].as_u64().unwrap_or(0) as usize, servers },
+        "clients" => Scenario::Clients { leftover: parse_leftover(v["leftover"].as_str().unwrap_or("")), clients: v["clients"].as_u64().unwrap_or(2) as usize, servers },
+        _ => Scenario::Contend { leftover: parse_leftover(v["leftover"].as_str().unwrap_or("")), servers },
+    }
+}
+
+/// The step at which actor `a` died: its (k+1)-th `point` hook (the retry sleep and the harness'
+/// own yields are not `point` hooks).
+fn death_step(exec: &Exec, a: usize, k: usize) -> Option<usize> {
+    exec.steps
+        .iter()
+        .enumerate()
+        .filter(|(_, s)| s.actor == a && s.name.starts_with("auth.") && !matches!(s.name.as_str(), "auth.retry_sleep" | "auth.serve" | "auth.spawned"))
+        .nth(k)
+        .map(|(i, _)| i)
+}
+
+/// Another actor created lock.json between `b`'s (re-)validation step `check` and its `rename`.
+fn create_inside_window(exec: &Exec, check: &str, rename: &str, victims: &[usize]) -> bool {
+    let st = &exec.steps;
+    for j in 0..st.len() {
+        if st[j].name != rename {
+            continue;
+        }
+        let b = st[j].actor;
+        let Some(i) = (0..j).rev().find(|&i| st[i].actor == b && st[i].name == check) else { continue };
+        for m in i + 1..j {
+            if st[m].actor != b && victims.contains(&st[m].actor) && st[m].name == "auth.acquire.create" {
+                // the link succeeded iff that actor's next step is the hook behind it
+                if st[m + 1..].iter().find(|s| s.actor == st[m].actor).map(|s| s.name == "auth.acquire.created").unwrap_or(false) {
+                    return true;
+                }
+            }
+        }
+    }
+    false
+}
+
+fn check_exec(report: &Report, sc: Scenario, world: &World, exec: &Exec) {
+    let w = &world.shared;
     let case = || {
         json!({
             "engine": "S",
             "harness": "c18.authority",
-            "leftover": format!("{leftover:?}"),
-            "contenders": contenders,
+            "scenario": scenario_json(sc),
             "choice_points_only": exec.decisions.iter().filter(|d| d.enabled.len() > 1).map(|d| d.chosen).collect::<Vec<_>>(),
             "schedule": exec.schedule_string(),
             "preemptions": exec.preemptions,
         })
     };
-    let label = format!("{leftover:?}x{contenders}");
+    let label = scenario_label(sc);
     if exec.deadlock || !exec.panicked.is_empty() {
-        report.violation(&format!("C18:deadlock_or_panic:{label}"), case(), "deadlock or panic");
+        report.violation(&format!("C18:deadlock_or_panic:{label}"), case(), &format!("deadlock={} panicked={:?}", exec.deadlock, exec.panicked));
         return;
     }
-    let holders = world.acquired.lock().unwrap().clone();
-    if holders.len() > 1 {
-        let in_cleanup = exec.steps.iter().any(|s| s.name == "auth.stale.rename");
-        report.violation(
-            &format!("C18:two_authorities:{}:{label}", if in_cleanup { "stale_cleanup_toctou" } else { "acquire" }),
-            case(),
-            &format!("pids {:?} all hold the authority role at once (guards are never released in this harness)", holders),
-        );
-        return;
-    }
-    if holders.len() == 1 {
-        // the live owner's lock must still be there and name it
-        match read_authority_lock_record(&world.data) {
-            Ok(Some(rec)) if rec.pid == holders[0] => {}
-            other => {
-                report.violation(&format!("C18:live_lock_taken:{label}"), case(), &format!("pid {} holds the role but lock.json is {:?}", holders[0], other.map(|o| o.map(|r| r.pid))));
+    // role intervals [acquired, released-or-died)
+    let events = w.events.lock().unwrap().clone();
+    let mut intervals: Vec<(usize, usize, usize)> = Vec::new(); // (actor, from, to)
+    for (a, ev, at) in &events {
+        if *ev != Ev::Acquired {
+            continue;
+        }
+        let mut end = usize::MAX;
+        if let Some((_, _, r)) = events.iter().find(|(b, e, _)| b == a && *e == Ev::Releasing) {
+            end = *r;
+        }
+        if let Scenario::Crashing { at_hook, .. } = sc {
+            if *a == 0 && w.dead[0].load(Ordering::SeqCst) {
+                if let Some(d) = death_step(exec, 0, at_hook) {
+                    end = end.min(d);
+                }
             }
         }
-        match read_authority_meta(&world.data) {
-            Ok(Some(m)) if m.pid == holders[0] => {}
-            other => report.violation(&format!("C18:live_meta_taken:{label}"), case(), &format!("pid {} holds the role but meta.json is {:?}", holders[0], other.map(|o| o.map(|r| r.pid)))),
+        intervals.push((*a, *at, end));
+    }
+    let role_actors: Vec<usize> = intervals.iter().map(|iv| iv.0).collect();
+    // How a lock was lost, if it was: the two known time-of-check / time-of-use windows (a lock is
+    // re-validated, another actor cleans up and acquires, the re-validated lock is renamed) are
+    // told apart from every other way of getting there.
+    let class = if create_inside_window(exec, "auth.stale.reread", "auth.stale.rename", &role_actors) {
+        "stale_cleanup_toctou"
+    } else if create_inside_window(exec, "auth.corrupt.check", "auth.corrupt.rename", &role_actors) {
+        "corrupt_cleanup_toctou"
+    } else if exec.steps.iter().any(|s| s.name == "auth.corrupt.rename") {
+        "via_corrupt_cleanup"
+    } else if exec.steps.iter().any(|s| s.name == "auth.stale.rename") {
+        "via_stale_cleanup"
+    } else {
+        "acquire"
+    };
+    for (i, x) in intervals.iter().enumerate() {
+        for y in &intervals[i + 1..] {
+            if x.1 < y.2 && y.1 < x.2 {
+                report.violation(
+                    &format!("C18:{class}:two_authorities:{label}"),
+                    case(),
+                    &format!("pids {} and {} hold the authority role at the same time (role intervals in steps: {:?})", BASE_PID + x.0 as u32, BASE_PID + y.0 as u32, intervals),
+                );
+                return;
+            }
         }
     }
-    if holders.is_empty() {
-        let why: Vec<String> = world.gave_up.lock().unwrap().iter().map(|(p, e)| format!("{p}: {e}")).collect();
-        // every leftover belongs to a dead owner: some contender must get the store
-        if leftover != Leftover::DeadMetaOnly || true {
-            report.violation(&format!("C18:store_not_recovered:{label}"), case(), &format!("no contender acquired the store within the horizon: {:?}", why));
+    // at the end: the live holder's files are its own; nobody else's files were taken
+    let live: Vec<usize> = intervals.iter().filter(|iv| iv.2 == usize::MAX).map(|iv| iv.0).collect();
+    if let [h] = live[..] {
+        let pid = BASE_PID + h as u32;
+        match read_authority_lock_record(&w.data) {
+            Ok(Some(rec)) if rec.pid == pid => {}
+            other => report.violation(&format!("C18:{class}:live_lock_taken:{label}"), case(), &format!("pid {pid} holds the role but lock.json is {:?}", other.map(|o| o.map(|r| r.pid)))),
+        }
+        match read_authority_meta(&w.data) {
+            Ok(Some(m)) if m.pid == pid => {}
+            other => report.violation(&format!("C18:{class}:live_meta_taken:{label}"), case(), &format!("pid {pid} serves but meta.json is {:?}", other.map(|o| o.map(|r| r.pid)))),
         }
     }
-    let _ = world.guards.lock().unwrap().len();
+    // a client only ever attaches to the actor that held the role at that moment
+    for (c, ev, at) in &events {
+        if let Ev::Attached(pid) = ev {
+            let a = (*pid - BASE_PID) as usize;
+            if !intervals.iter().any(|iv| iv.0 == a && iv.1 <= *at && *at <= iv.2) {
+                report.violation(&format!("C18:client_attached_to_non_authority:{label}"), case(), &format!("client {c} attached to pid {pid} at step {at}; role intervals {:?}", intervals));
+            }
+        }
+    }
+    // contenders on a dead owner's leftovers: somebody must end up with the store
+    if let Scenario::Contend { .. } = sc {
+        if live.is_empty() {
+            let why: Vec<String> = w.gave_up.lock().unwrap().iter().map(|(p, e)| format!("{p}: {e}")).collect();
+            report.violation(&format!("C18:store_not_recovered:{label}"), case(), &format!("no contender acquired the store: {:?}", why));
+        }
+    }
+    // from every final state a fresh, single contender either defers to the live holder (and leaves
+    // its files alone) or recovers the store
+    let before_lock = std::fs::read(ripd::authority_lock_path(&w.data)).ok();
+    let before_meta = std::fs::read(ripd::authority_meta_path(&w.data)).ok();
+    crate::sched::set_thread_env(Some(Box::new(Env { pid: BASE_PID + 900, shared: w.clone() })));
+    let late = server_loop(None, w);
+    crate::sched::set_thread_env(None);
+    match (&late, live.len()) {
+        (Ok(_), 0) => {}
+        (Err(_), 1) => {
+            if std::fs::read(ripd::authority_lock_path(&w.data)).ok() != before_lock || std::fs::read(ripd::authority_meta_path(&w.data)).ok() != before_meta {
+                report.violation(&format!("C18:late_contender_touched_live_files:{label}"), case(), "a late contender changed the live holder's lock or meta");
+            }
+        }
+        (Ok(_), _) => {
+            let hung = matches!(sc, Scenario::LiveHolder { reachable: false, .. });
+            report.violation(
+                &format!("C18:{class}:two_authorities_late_contender{}:{label}", if hung { ":hung_holder" } else { "" }),
+                case(),
+                &format!("a contender arriving after the execution acquired the store although pid {} still holds it", BASE_PID + live[0] as u32),
+            );
+        }
+        (Err(e), _) => {
+            report.violation(&format!("C18:store_not_recoverable:{label}"), case(), &format!("no authority is left, yet a fresh contender cannot acquire the store: {e}"));
+        }
+    }
+    if let Ok(g) = late {
+        // release outside the scheduler (hooks pass through on this thread)
+        drop(g);
+    }
 }
 
-fn run_config(report: &Report, leftover: Leftover, contenders: usize, bound: usize) {
+fn run_config(report: &Report, sc: Scenario, bound: usize) {
     let mut outcomes = std::collections::HashSet::new();
+    let label = scenario_label(sc);
     let stats = {
         let oc = &mut outcomes;
         explore(
@@ -193,53 +632,62 @@ fn run_config(report: &Report, leftover: Leftover, contenders: usize, bound: usi
             false,
             Some(vec!["start", "auth.*"]),
             &|| report.over_cap(),
-            &|| make_world(leftover, contenders),
+            &|| make_world(sc),
             &mut |world: &World, exec: &Exec| {
-                report.eval(Some(&(leftover, contenders, exec.trace_hash())));
-                oc.insert(world.acquired.lock().unwrap().clone());
-                check_exec(report, leftover, contenders, world, exec);
+                report.eval(Some(&(sc, exec.trace_hash())));
+                let roles: Vec<(usize, Ev)> = world.shared.events.lock().unwrap().iter().map(|(a, e, _)| (*a, e.clone())).collect();
+                oc.insert(format!("{roles:?}"));
+                check_exec(report, sc, world, exec);
                 // drop guards without yielding into the (finished) scheduler
-                world.guards.lock().unwrap().clear();
+                world.shared.guards.lock().unwrap().clear();
             },
         )
     };
     report.add_states(stats.distinct_traces.len() as u64, stats.steps);
     report.add_traces_validated(stats.executions);
     report.count("executions", stats.executions);
-    report.count(&format!("distinct_winners[{leftover:?}x{contenders}]"), outcomes.len() as u64);
+    report.count(&format!("executions[{label}]"), stats.executions);
+    report.count(&format!("distinct_outcomes[{label}]"), outcomes.len() as u64);
     report.max_counter("max_choice_points", stats.max_decisions as u64);
     if stats.capped {
-        report.not_exhaustive(&format!("{leftover:?}x{contenders}: wall cap hit after {} executions", stats.executions));
+        report.not_exhaustive(&format!("{label}: wall cap hit after {} executions at bound {bound}", stats.executions));
     }
 }
 
 pub fn replay(report: &Report, case: &Value) {
-    let leftover = match case["leftover"].as_str().unwrap_or("") {
-        "DeadLock" => Leftover::DeadLock,
-        "DeadLockAndMeta" => Leftover::DeadLockAndMeta,
-        "DeadMetaOnly" => Leftover::DeadMetaOnly,
-        _ => Leftover::Empty,
+    let sc = if case.get("scenario").is_some() {
+        scenario_from_json(&case["scenario"])
+    } else {
+        // replay files written before the scenario field existed
+        Scenario::Contend { leftover: parse_leftover(case["leftover"].as_str().unwrap_or("")), servers: case["contenders"].as_u64().unwrap_or(2) as usize }
     };
-    let contenders = case["contenders"].as_u64().unwrap_or(2) as usize;
     let prefix: Vec<usize> = case["choice_points_only"].as_array().map(|a| a.iter().filter_map(|v| v.as_u64().map(|x| x as usize)).collect()).unwrap_or_default();
-    let (world, actors) = make_world(leftover, contenders);
+    let (world, actors) = make_world(sc);
     let exec = crate::sched::run_once(actors, &prefix, false, Some(vec!["start", "auth.*"]));
-    println!("replay: {:?}\nholders: {:?}", exec.schedule_string(), world.acquired.lock().unwrap());
+    println!("replay: {:?}\nrole events: {:?}", exec.schedule_string(), world.shared.events.lock().unwrap());
     report.eval(Some(&"replay"));
-    check_exec(report, leftover, contenders, &world, &exec);
-    world.guards.lock().unwrap().clear();
+    check_exec(report, sc, &world, &exec);
+    world.shared.guards.lock().unwrap().clear();
 }
+
+/// Number of `point` hooks a lone server passes on an empty store (record write, link, linked,
+/// meta tmp, meta rename).
+const SERVER_HOOKS: usize = 5;
 
 pub fn run(opts: Opts) -> i32 {
     let report = Report::new("C18", "model_checking", opts.clone());
     report.set_rule(
-        "engine S: 2 (quick) / 2 and 3 (thorough) contenders x leftover states {no files, lock of a dead pid, lock+meta of a dead pid, meta only of \
-         a dead pid}, each running the recovery protocol over the real lock primitives and then holding the role; all interleavings at the \
-         file-system step hooks of acquire / stale cleanup / meta write with <=2 (quick) / <=3 (thorough; 2 for 3 contenders) preemptions; \
+        "engine S over the real lock primitives; scenarios: (a) 2 (thorough: also 3) servers x leftover {no files, lock / lock+meta / meta only of a dead \
+         pid, empty lock file, torn lock record, torn lock + dead meta}; (b) a live holder (reachable or hung) + 2 servers; (c) a holder shutting \
+         down (guard drop) + 2 servers; (d) a server that dies before the effect after each of its hooks (private record write, link, after the link, meta \
+         tmp, meta rename) + 2 servers; (e) 2 clients (attach / stale + corrupt cleanup / spawn own server; <=1 preemption in quick) or 1 client + 1 independent server x \
+         leftover (thorough: also 2 clients + 1 server, <=1 preemption); all interleavings at the file-system step hooks of acquire / stale cleanup / corrupt cleanup / meta write / release with <=2 \
+         (quick) / <=3 (thorough; 2 for 3+ contenders) preemptions; after every execution a fresh sequential contender runs on the final files; \
          state = distinct executed schedule",
     );
-    report.assume("the server's private async recovery loop is restated in the harness over the public primitives (same control flow: acquire, meta + reachability, lock record, liveness, stale cleanup, retry); the 1 s corrupt-lock grace branch never elapses within an execution and is not explored; pid reuse and clock skew are outside the model");
-    report.assume("liveness and reachability are functions of the harness' actor table: actors are alive for the whole execution, the leftover owner (pid 999) is dead and unreachable");
+    report.assume("the server's private async recovery loop and the client's ensure_local_authority loop are restated branch by branch in the harness over the public primitives; pid reuse and clock skew are outside the model");
+    report.assume("time = number of retry sleeps of the observing actor; grace 1 sleep, server deadline 3, client deadline 4, one spawn per client (order of the real constants kept); time is otherwise unconstrained (a grace period or deadline may elapse at any point of any schedule)");
+    report.assume("liveness and reachability are functions of the harness' actor table: an actor is alive until its injected crash, reachable while it serves (after its meta write, before its release); the leftover owner (pid 999) is dead");
     crate::sched::install_hooks();
     if let Some(path) = &opts.replay {
         let case = crate::common::load_replay_case(path);
@@ -247,20 +695,37 @@ pub fn run(opts: Opts) -> i32 {
         return report.finish();
     }
     let tier = report.tier();
-    let mut configs = Vec::new();
-    for l in [Leftover::Empty, Leftover::DeadLock, Leftover::DeadLockAndMeta, Leftover::DeadMetaOnly] {
-        configs.push((l, 2usize, tier.pick(2, 3)));
+    let b2 = tier.pick(2, 3);
+    let mut configs: Vec<(Scenario, usize)> = Vec::new();
+    for l in LEFTOVERS {
+        configs.push((Scenario::Contend { leftover: l, servers: 2 }, b2));
         if tier == Tier::Thorough {
-            configs.push((l, 3usize, 2usize));
+            configs.push((Scenario::Contend { leftover: l, servers: 3 }, 2));
         }
     }
-    report.sample(json!({"leftover": "DeadLock", "contenders": 2, "bound": tier.pick(2, 3)}));
-    report.sample(json!({"leftover": "Empty", "contenders": 2}));
-    configs.par_iter().for_each(|(l, n, b)| {
+    for reachable in [true, false] {
+        configs.push((Scenario::LiveHolder { reachable, servers: 2 }, b2));
+    }
+    configs.push((Scenario::Releasing { servers: 2 }, b2));
+    for k in 0..SERVER_HOOKS {
+        configs.push((Scenario::Crashing { at_hook: k, servers: 2 }, b2));
+    }
+    for l in LEFTOVERS {
+        configs.push((Scenario::Clients { leftover: l, clients: 2, servers: 0 }, tier.pick(1, 2)));
+        configs.push((Scenario::Clients { leftover: l, clients: 1, servers: 1 }, 2));
+        if tier == Tier::Thorough {
+            configs.push((Scenario::Clients { leftover: l, clients: 2, servers: 1 }, 1));
+        }
+    }
+    report.set_extra("configs", json!(configs.len()));
+    report.sample(json!({"scenario": scenario_json(configs[1].0), "bound": configs[1].1}));
+    report.sample(json!({"scenario": scenario_json(Scenario::Crashing { at_hook: 1, servers: 2 }), "bound": b2}));
+    report.sample(json!({"scenario": scenario_json(Scenario::Clients { leftover: Leftover::HalfLock, clients: 2, servers: 0 }), "bound": 2}));
+    configs.par_iter().for_each(|(sc, b)| {
         if report.over_cap() {
             return;
         }
-        run_config(&report, *l, *n, *b);
+        run_config(&report, *sc, *b);
     });
     report.finish()
 }
